@@ -146,6 +146,10 @@ structure ReadResult where
   out : Bytes                      -- bytes delivered to the caller
   failed : Bool                    -- the stream ended with an error instead of EOF
   heals : List (Option Bytes)      -- per shard: the stream written to its store (`none` = not healed)
+  /-- only when `failed`: per healing shard, what had been written to its heal writer when the stream
+  failed. A shard store that writes without a transaction (filesystem, nil tx) keeps these bytes as
+  the shard's new content; a transactional one discards them. -/
+  partials : List (Option Bytes) := []
   deriving Repr, DecidableEq
 
 /-- Present payloads must all have the same length (`reedsolomon.checkShards`). -/
@@ -176,15 +180,16 @@ def healPayload (c : Cfg) (code : Code) (fix : Fix) (shards : List (Option Bytes
 `healing k` = shard `k` has a heal writer. `acc`/`hacc` accumulate the output and the heal streams. -/
 def loop (c : Cfg) (code : Code) (H : Bytes → Bytes) (fix : Fix) (healing : List Bool) :
     Nat → Nat → List (Option Bytes) → Bytes → List Bytes → ReadResult
-  | 0, _, _, acc, hacc => ⟨acc, true, hacc.map fun _ => none⟩   -- out of fuel: unreachable (see `fuelFor`)
+  | 0, _, _, acc, hacc => ⟨acc, true, hacc.map fun _ => none, []⟩   -- out of fuel: unreachable (see `fuelFor`)
   | fuel + 1, j, readers, acc, hacc =>
     let frs := readers.map (Option.map (readFrame H j))
     if !(frs.any FrameRead.seen) then
-      ⟨acc, false, (List.zip healing hacc).map fun (h, s) => if h then some s else none⟩
+      ⟨acc, false, (List.zip healing hacc).map fun (h, s) => if h then some s else none, []⟩
     else
       let shards := frs.map FrameRead.payload
       let dataBytes := (frs.findSome? FrameRead.dataBytes).getD 0
-      let fail : ReadResult := ⟨acc, true, hacc.map fun _ => none⟩
+      let fail : ReadResult := ⟨acc, true, hacc.map fun _ => none,
+        (List.zip healing hacc).map fun (h, s) => if h then some s else none⟩
       if (shards.filter Option.isSome).length < c.d then fail else
       if !sameSizes shards then fail else
       match dataOf c code shards with
